@@ -63,7 +63,7 @@ OP_KINDS = [
     "em_index", "em_remove_small", "em_remove_overlapping", "em_link", "em_clear", "merge",
     "mutate", "write_array", "etc_new", "etc_append", "etc_index", "etc_slice", "etc_clear",
     "etc_get", "etc_ctor", "tr_new", "tr_append", "tr_index", "tr_slice", "tr_ctor", "tl_new",
-    "tl_remove_short", "tl_slice", "query", "reject",
+    "tl_remove_short", "tl_slice", "query", "reject", "d_copy",
 ]
 
 
@@ -194,6 +194,10 @@ def generate(streams: Streams, tier: str, index: int) -> dict:
             ops.append({"op": k, "a": R(16), "b": R(16), "inplace": rng.random() < 0.5})
         elif k == "mutate":
             ops.append({"op": k, "d": R(16), "field": rng.choice(["position", "radius", "interface_width"]),
+                        "value": scenes.q(rng.uniform(0.25, 9)), "axis": R(3)})
+        elif k == "d_copy":
+            ops.append({"op": k, "d": R(16),
+                        "kw": rng.choice([None, None, "radius", "position", "interface_width"]),
                         "value": scenes.q(rng.uniform(0.25, 9)), "axis": R(3)})
         elif k == "write_array":
             ops.append({"op": k, "arr": R(8), "row": R(16), "field": rng.choice(["position", "radius"]),
@@ -924,6 +928,47 @@ def run_op(M: Machine, step: int, op: dict) -> str | None:
                        kind="shared_object")
             else:
                 M.hold(res)
+        return None
+
+    if k == "d_copy":
+        # a copy of a single droplet (plain, or with one parameter replaced) is a new, independent
+        # object; its source is left alone
+        h = _pick(M.drops, op["d"])
+        if h is None:
+            return "no droplet"
+        d, c = h
+        new = c.fresh()
+        f = op.get("kw")
+        if f == "interface_width" and "interface_width" not in c.rec.dtype.names:
+            f = "radius"
+        kw = {}
+        if f == "position":
+            ax = op["axis"] % c.dim
+            if c.cls == "PerturbedDroplet3DAxisSym" and ax < 2:
+                ax = 2
+            pos = np.array(c.rec["position"], dtype=float)
+            pos[ax] = op["value"]
+            kw["position"] = pos
+            new.rec["position"] = pos
+        elif f is not None:
+            kw[f] = op["value"]
+            new.rec[f] = op["value"]
+        ok, res = sut(lambda: d.copy(**kw))
+        if not ok:
+            unexpected(res)
+            return None
+        if res is d or id(res) in M.cell_by_obj:
+            M.viol("C20.O2", f"step {step}: droplet.copy({', '.join(kw)}) returned an object that "
+                   "already exists", op=k, kind="shared_object")
+            return None
+        if type(res).__name__ != c.cls:
+            M.viol("C20.O1", f"step {step}: droplet.copy() of a {c.cls} returned a "
+                   f"{type(res).__name__}", op=k, kind="type")
+            return None
+        M.reg_drop(res, cell=new)
+        M.hold(res)
+        M.alias_cov.add((k, str(f)))
+        cnt.inc("probe.droplet_copies")
         return None
 
     if k == "mutate":
